@@ -1,5 +1,5 @@
 #!/bin/bash
 # Runs every READY check once (quick by default) and prints one verdict line per property.
 tier=${1:-quick}; par=${2:-4}
-cd "$(dirname "$0")/.."
+cd "$(dirname "$0")/.." && mkdir -p .work
 python3 -c "import checks_conf; print(' '.join(checks_conf.READY))" | tr ' ' '\n' | xargs -P $par -I{} bash -c './check {} --tier '$tier' > .work/runall-{}.log 2>&1; echo "{} rc=$? $(grep -E "^(OK|VIOLATION|INCONCLUSIVE)" .work/runall-{}.log | tail -1 | cut -c1-150)"'
